@@ -217,8 +217,12 @@ type killSentinel struct{}
 
 type kill struct {
 	At   int    `json:"before_effect"`
-	Torn bool   `json:"torn_flush"`
+	Torn bool   `json:"torn_flush,omitempty"`
 	Cut  uint64 `json:"cut_seed,omitempty"`
+	// Graceful: no kill; the driver is stopped (context cancelled, Close flushes) after
+	// AfterInput inputs and restarted
+	Graceful   bool `json:"graceful_stop,omitempty"`
+	AfterInput int  `json:"after_input,omitempty"`
 }
 
 const (
@@ -266,7 +270,12 @@ type incarnation struct {
 	status         int
 	finalHeight    types.Height
 	lastPropQ      [2]int64 // last (height, round) asked of Validators.Proposer
+	trace          []string
+	trigger        string // log key of the input the state machine is processing (set by smWrap)
+	unlogged       []effect
 }
+
+var dbg = os.Getenv("C13_DEBUG") != ""
 
 func (inc *incarnation) killable(kind string) bool { return kind != "close" && kind != "load" }
 
@@ -414,15 +423,23 @@ func (w walWrap) Flush() error {
 func (w walWrap) LoadAllEntries() iter.Seq2[starknet.WALEntry, error] {
 	inc := w.inc
 	inc.pre("load", "LoadAllEntries")
-	src := inc.real.LoadAllEntries()
+	// drained eagerly so that the observation is complete even if the process dies during replay
+	type pair struct {
+		e   starknet.WALEntry
+		err error
+	}
+	var all []pair
+	for e, err := range inc.real.LoadAllEntries() {
+		all = append(all, pair{e, err})
+		if err == nil {
+			inc.c.mu.Lock()
+			inc.loaded = append(inc.loaded, walItem{e.GetHeight(), entryKey(e)})
+			inc.c.mu.Unlock()
+		}
+	}
 	return func(yield func(starknet.WALEntry, error) bool) {
-		for e, err := range src {
-			if err == nil {
-				inc.c.mu.Lock()
-				inc.loaded = append(inc.loaded, walItem{e.GetHeight(), entryKey(e)})
-				inc.c.mu.Unlock()
-			}
-			if !yield(e, err) {
+		for _, p := range all {
+			if !yield(p.e, p.err) {
 				return
 			}
 		}
@@ -462,11 +479,26 @@ func (inc *incarnation) visible(kind, key string) effect {
 		inc.die()
 		panic(killSentinel{})
 	}
+	c := inc.c
+	c.mu.Lock()
 	if e.Dirty > 0 {
-		inc.c.mu.Lock()
 		inc.durViol = append(inc.durViol, e)
-		inc.c.mu.Unlock()
 	}
+	if !e.Replay && inc.trigger != "" {
+		// the input whose processing produced this visible effect must be in the flushed log
+		found := false
+		for _, it := range c.model.items {
+			if it.Key == inc.trigger {
+				found = true
+				break
+			}
+		}
+		if !found {
+			e.Key += " <- caused by " + inc.trigger
+			inc.unlogged = append(inc.unlogged, e)
+		}
+	}
+	c.mu.Unlock()
 	return e
 }
 
@@ -527,10 +559,17 @@ func (s smWrap) note(acts []starknet.Action) (commit bool) {
 	return commit
 }
 
+func (s smWrap) setTrigger(key string) {
+	s.inc.c.mu.Lock()
+	s.inc.trigger = key
+	s.inc.c.mu.Unlock()
+}
+
 func (s smWrap) ProcessStart(r types.Round) []starknet.Action {
 	inc := s.inc
 	inc.c.mu.Lock()
 	inc.replaying = false
+	inc.trigger = fmt.Sprintf("start h=%d", inc.inner.Height())
 	inc.c.mu.Unlock()
 	acts := inc.inner.ProcessStart(r)
 	s.note(acts)
@@ -539,6 +578,7 @@ func (s smWrap) ProcessStart(r types.Round) []starknet.Action {
 
 func (s smWrap) ProcessTimeout(tm types.Timeout) []starknet.Action {
 	inc := s.inc
+	s.setTrigger(entryKey((*starknet.WALTimeout)(&tm)))
 	acts := inc.inner.ProcessTimeout(tm)
 	s.note(acts)
 	inc.c.mu.Lock()
@@ -557,18 +597,21 @@ func (s smWrap) ProcessTimeout(tm types.Timeout) []starknet.Action {
 }
 
 func (s smWrap) ProcessProposal(p *starknet.Proposal) []starknet.Action {
+	s.setTrigger(entryKey((*starknet.WALProposal)(p)))
 	acts := s.inc.inner.ProcessProposal(p)
 	s.note(acts)
 	return acts
 }
 
 func (s smWrap) ProcessPrevote(p *starknet.Prevote) []starknet.Action {
+	s.setTrigger(entryKey((*starknet.WALPrevote)(p)))
 	acts := s.inc.inner.ProcessPrevote(p)
 	s.note(acts)
 	return acts
 }
 
 func (s smWrap) ProcessPrecommit(p *starknet.Precommit) []starknet.Action {
+	s.setTrigger(entryKey((*starknet.WALPrecommit)(p)))
 	acts := s.inc.inner.ProcessPrecommit(p)
 	s.note(acts)
 	return acts
@@ -654,6 +697,12 @@ type caseRun struct {
 	futPC   map[string]map[int]bool // (h,r,id) -> senders of non-nil precommits delivered while the height was in the future
 	dropped int
 	tmp     []string
+	// expectAt[i] = what the log must hold when incarnation i+1 opens it
+	expectAt [][]walItem
+}
+
+func openStore(root string) (walstore.TendermintWALStore[V, H, A], error) {
+	return walstore.NewTendermintWALStore[V, H, A](pathDB{p: root})
 }
 
 func newCaseRun(cfg *config) (*caseRun, error) {
@@ -780,16 +829,29 @@ func (c *caseRun) incarnate(inputs []idxInput, k kill) *incarnation {
 		}
 		return false
 	}
+	// syncPoint returns when the driver is idle in its select and no expiring timer is
+	// outstanding: a barrier message (ignored by the state machine: height 0) is accepted
+	// only once everything before it has been executed; the timeout counter must not have
+	// moved between a read taken before sending the barrier and one taken after it.
 	syncPoint := func() bool {
 		for {
+			c.mu.Lock()
+			c0 := inc.consumed
+			c.mu.Unlock()
 			if !send(barrier) {
 				return false
 			}
 			c.mu.Lock()
-			ok := inc.consumed >= inc.armed
+			c1, a1 := inc.consumed, inc.armed
+			if dbg {
+				inc.trace = append(inc.trace, fmt.Sprintf("sync: consumed=%d->%d armed=%d effects=%d", c0, c1, a1, len(inc.effects)))
+			}
 			c.mu.Unlock()
-			if ok {
+			if c1 == c0 && c1 >= a1 {
 				return true
+			}
+			if c1 >= a1 {
+				continue
 			}
 			select {
 			case <-inc.notify:
@@ -849,6 +911,9 @@ func (c *caseRun) incarnate(inputs []idxInput, k kill) *incarnation {
 			}
 			c.mu.Lock()
 			c.cnt["inputs_delivered"]++
+			if dbg {
+				inc.trace = append(inc.trace, fmt.Sprintf("sent #%d %v effects=%d", ii.Idx, msgString(msg), len(inc.effects)))
+			}
 			c.mu.Unlock()
 			if !syncPoint() {
 				break
@@ -887,6 +952,7 @@ func (c *caseRun) incarnate(inputs []idxInput, k kill) *incarnation {
 			c.root = inc.image
 		}
 	}
+	c.expectAt = append(c.expectAt, c.model.expected())
 	return inc
 }
 
@@ -945,4 +1011,16 @@ func (c *caseRun) concrete(inc *incarnation, ii idxInput) (any, bool) {
 		}
 		return &starknet.Precommit{MessageHeader: hdr, ID: id}, false
 	}
+}
+
+func msgString(m any) string {
+	switch x := m.(type) {
+	case *starknet.Proposal:
+		return entryKey((*starknet.WALProposal)(x))
+	case *starknet.Prevote:
+		return entryKey((*starknet.WALPrevote)(x))
+	case *starknet.Precommit:
+		return entryKey((*starknet.WALPrecommit)(x))
+	}
+	return "?"
 }
